@@ -7,7 +7,6 @@ import (
 	"fmt"
 	"reflect"
 	"strconv"
-	"strings"
 	"sync"
 
 	"github.com/hashicorp/go-argmapper/internal/graph"
@@ -76,16 +75,10 @@ func (f *Func) Redefine(opts ...Arg) (*Func, error) {
 		callArgs := make([]Arg, len(opts))
 		copy(callArgs, opts)
 
-		// Setup our values
-		for name, f := range set.namedValues {
-			callArgs = append(callArgs, namedValue(name, v.Field(f.index)))
-		}
-		for _, f := range set.typedValues {
-			// Like the named values, under their static type: an input of
-			// an interface type must not turn into a value of its dynamic
-			// type, which could replace an argument of that very type that
-			// was given to Redefine.
-			callArgs = append(callArgs, valueArg("", v.Field(f.index), ""))
+		// Setup our values. Every value is handed on under the name, the
+		// static type and the subtype it was declared with.
+		for _, val := range set.values {
+			callArgs = append(callArgs, valueArg(val.Name, v.Field(val.index), val.Subtype))
 		}
 
 		// Call
@@ -120,22 +113,6 @@ func (f *Func) Redefine(opts ...Arg) (*Func, error) {
 	return NewFunc(fn.Interface(),
 		FuncName(f.Name()), // Preserve the name from the original func
 	)
-}
-
-// namedValue is Named for a value we hold as a reflect.Value: it keeps the
-// static type of the value. An input declared with an interface type must be
-// handed on under that type, since a named value only satisfies a named
-// requirement of exactly its type; going through interface{} would turn it
-// into a value of its dynamic type.
-func namedValue(n string, rv reflect.Value) Arg {
-	return func(a *argBuilder) error {
-		if !rv.IsValid() || (rv.Kind() == reflect.Interface && rv.IsNil()) {
-			return nil
-		}
-
-		a.named[strings.ToLower(n)] = rv
-		return nil
-	}
 }
 
 // redefineInputs is called by Redefine to determine the input struct type
@@ -228,7 +205,7 @@ func (f *Func) redefineInputs(opts ...Arg) (reflect.Type, error) {
 			sf = append(sf, reflect.StructField{
 				Name: fmt.Sprintf("V__Named_%d", len(sf)),
 				Type: v.Type,
-				Tag:  reflect.StructTag("argmapper:" + strconv.Quote(v.Name)),
+				Tag:  reflect.StructTag("argmapper:" + strconv.Quote(v.Name+subtypeTag(v.Subtype))),
 			})
 
 		case *typedArgVertex:
@@ -245,12 +222,21 @@ func (f *Func) redefineInputs(opts ...Arg) (reflect.Type, error) {
 			sf = append(sf, reflect.StructField{
 				Name: fmt.Sprintf("V__Type_%d", len(sf)),
 				Type: v.Type,
-				Tag:  reflect.StructTag(`argmapper:",typeOnly"`),
+				Tag:  reflect.StructTag("argmapper:" + strconv.Quote(",typeOnly"+subtypeTag(v.Subtype))),
 			})
 		}
 	}
 
 	return reflect.StructOf(sf), nil
+}
+
+// subtypeTag is the struct tag option that declares the subtype st.
+func subtypeTag(st string) string {
+	if st == "" {
+		return ""
+	}
+
+	return ",subtype=" + st
 }
 
 // redefineOutputs redefines the outputs of the function in accordance
